@@ -11,6 +11,7 @@
 import Sio.Lemmas.PubSubSyncOps
 import Sio.Lemmas.PubSubRunOps
 import Sio.Lemmas.PubSubTokOps
+import Sio.Lemmas.PubSubDeliver
 import Sio.Props.C03
 namespace Sio.C07
 open Sio.PubSub Sio.Rooms
@@ -109,10 +110,19 @@ theorem sync_equiv_frames (p : Placement) (ids : List HostId) (wo : HostId) (hnd
     delivery): `callback_once` — at most one invocation, on the issuing host.  What is checked on
     every run instead: `appEvents (runSync …) = appEvents (Single.run …)` is evaluated by the driver
     on every generated mode-A history (and on the real servers against one real server), and holds
-    on the concrete history above by `rfl`.  The missing proof needs the relation between the two
-    callback tables (relay entry on the client's host ↦ user entry on the issuing host ↦ entry of the
-    single server, position by position of the clients' `asked` lists) under the domain restriction
-    "a callback emit addresses one client by its own session id". -/
+    on the concrete history above by `rfl`.  Also proved: `callback_exactly_once_when_linked` (the
+    ACK of an event whose relay entry is linked to the issuer's user entry, plus a drain, invokes
+    exactly that callback on the issuer with the client's arguments) and `callback_args_from_ack` /
+    `callback_args_relayed` (the arguments are never altered on the way).
+    REMAINING OBLIGATION (exactly): an invariant `Linked c s` of the drained run, preserved by every
+    operation + drain under `OpsOk`, fresh session ids and "a callback emit addresses one client by
+    its own session id, through a host", saying: `c.asked.map fst = s.asked.map fst`, and for every
+    position `j` whose client is connected, with `c.asked[j] = (sid, ic)`, `s.asked[j] = (sid, is)`:
+    `s.srv.cbs sid is = some (user t)` iff the host of `sid` has `cbs sid ic = some (relay (some o) k n
+    id0)` and host `o` has `cbs k id0 = some (user t)` (else both are `none`).  Its preservation needs
+    the bounds `cbs k i ≠ none → i ≤ ctr k` and `asked ids ≤ ctr` (no revival of consumed ids), on
+    both sides.  Given `Linked`, the per-step equality of callback invocations is
+    `callback_exactly_once_when_linked` on the cluster side and `trigger_user` on the single side. -/
 theorem sync_equiv_partial (p : Placement) (ids : List HostId) (wo : HostId) (hnd : ids.Nodup)
     (hwo : wo ∉ ids) (ops : List PubSub.Op) (hops : OpsOk p ids ops) (x : Sid) :
     seenBy x (runSync (Cluster.init ids wo) ops).2 = seenBy x (Single.run Single.init ops).2 ∧
@@ -477,6 +487,69 @@ theorem unraced_exact_local (p : Placement) (vs : List View) (s : Rooms.St)
     exact hsplit
   · rw [if_neg hx]
     exact seenEmit_nil_of_elsewhere hinv hhome hx ns to _ _ _ _
+
+/-! ## the callback relay: the client's arguments, and exactly once when acknowledged -/
+
+/-- **The arguments are the client's.**  Whatever an ACK packet sets off on the client's host — the
+    user callback directly, or (through the relay entry) a `callback` message for the issuing host —
+    carries exactly the arguments of that ACK ... -/
+theorem callback_args_from_ack (h : Host) (sid : Sid) (id : Nat) (args : List J) :
+    CarriesArgs args (apiAck h sid id args) := by
+  rw [apiAck_eq]; exact trigger_carries chainFuel h sid id args
+
+/-- ... and whatever a `callback` message sets off on the host that consumes it carries exactly the
+    arguments in the message.  (Together: from the client's ACK to the invocation on the issuing
+    host the arguments are never altered.) -/
+theorem callback_args_relayed (h : Host) (origin : Option HostId) (key : Str) (ns : Ns) (id : Nat)
+    (args : List J) : CarriesArgs args (listenMsg h (.callback origin key ns id args)) := by
+  rw [listenMsg_callback]
+  split
+  · exact trigger_carries chainFuel h key id args
+  · exact ⟨fun o ho => (nomatch ho), fun m hm => (nomatch hm)⟩
+
+/-- **Exactly once when the client ACKs and the hosts drain**, for every placement (the client's
+    host `hs` and the issuing host `hv` may be the same or different, any number of other hosts):
+    in a drained cluster in which the relay entry of the acknowledged event on `hs` is linked to the
+    user callback `tok` on `hv` — the configuration that `emit(..., to=sid, callback=cb)` via `hv`
+    plus a drain creates, see the example — the ACK followed by one drain pass invokes exactly one
+    callback: `tok`, on `hv`, with the client's arguments.  With `callback_once` (never more than
+    once, never elsewhere, under any schedule) this is "exactly once, on the issuing server, with
+    the remote client's acknowledgement". -/
+theorem callback_exactly_once_when_linked (home : Sid → HostId) (c : Cluster) (hrun : Running home c)
+    (hdr : ∀ h ∈ c.hosts, h.cursor = c.chan.length) (hs hv : Host) (hhs : hs ∈ c.hosts)
+    (hhv : hv ∈ c.hosts) (ns : Ns) (sid : Sid) (n ic : Nat) (args : List J) (k : Str) (ns' : Ns)
+    (id0 tok : Nat) (hconn : hs.connected ns sid = true) (hnth : nthAsked c.asked sid n = some ic)
+    (hrel : hs.cbs sid ic = some (.relay (some hv.id) k ns' id0))
+    (huser : hv.cbs k id0 = some (.user tok)) :
+    cbOuts (runSync c [.ack ns sid n args]).2 = [.callback hv.id tok args] := by
+  have := callback_delivered c hrun hdr hs hv hhs hhv ns sid n ic args k ns' id0 tok hconn hnth hrel huser
+  show cbOuts ((step c (.ack ns sid n args)).2 ++ (step (step c (.ack ns sid n args)).1 .drain).2 ++ []) = _
+  rw [List.append_nil]; exact this
+
+-- non-vacuity: host B emits to client `sA` (which lives on host A) with callback 7, everybody drains:
+-- the tables are linked as the theorem requires, and the ACK is delivered across the channel
+def linkedOps : List PubSub.Op :=
+  [ .connect hA nsR tA sA, .connect hB nsR tB sB,
+    .emit (some hB) ['e', '3'] .none nsR (.one sA) .none (some 7), .drain ]
+def linked : Cluster := (PubSub.run (Cluster.init [hA, hB] hW) linkedOps).1
+def linkedA : Host := linked.hosts.head!
+def linkedB : Host := linked.hosts.getLast!
+
+example : cbOuts (runSync linked [.ack nsR sA 0 [.int 9]]).2 = [.callback hB 7 [.int 9]] := by
+  have hfine : OpsFine demoPlacement.home linkedOps := by
+    intro op hop
+    simp only [linkedOps, List.mem_cons, List.not_mem_nil, or_false] at hop
+    rcases hop with rfl | rfl | rfl | rfl <;> simp [OpFine, demoPlacement, Target.ok] <;> decide
+  have hrun : Running demoPlacement.home linked :=
+    (at_most_once_from demoPlacement.home _ (running_init _ [hA, hB] hW (by decide)) linkedOps hfine [] []).2
+  have hhosts : linked.hosts = [linkedA, linkedB] := rfl
+  have hdr : ∀ h ∈ linked.hosts, h.cursor = linked.chan.length := by
+    intro h hh
+    rw [hhosts] at hh
+    simp only [List.mem_cons, List.not_mem_nil, or_false] at hh
+    rcases hh with rfl | rfl <;> rfl
+  exact callback_exactly_once_when_linked demoPlacement.home linked hrun hdr linkedA linkedB
+    (by rw [hhosts]; simp) (by rw [hhosts]; simp) nsR sA 0 1 [.int 9] sA nsR 1 7 rfl rfl rfl rfl
 
 /-! ## remote_ops_local_effect -/
 
